@@ -88,9 +88,10 @@ pub fn enabled_with_commits(keys: &[Ev], shown: Option<&Rend>, extra: &[Ev]) -> 
     let mut v: Vec<Ev> = vec![];
     let sel = shown.map(|r| r.sel().min(255) as u8).unwrap_or(0);
     for k in keys {
-        if let Ev::Key { code, m, .. } = k {
-            // front-end emulation: the selection byte is the preselected index of the shown list
-            v.push(Ev::Key { code: *code, m: *m, sel });
+        if let Ev::Key { code, m, sel: own } = k {
+            // front-end emulation: the selection byte is the preselected index of the shown list - unless the alphabet gives the
+            // key a byte of its own ("any selection byte" is in contract for C01)
+            v.push(Ev::Key { code: *code, m: *m, sel: if *own != 0 { *own } else { sel } });
         }
     }
     v.push(Ev::Bs);
